@@ -66,6 +66,17 @@ class Encoder:
         self.prog: dict[str, dict] = {}
         self.features: set[str] = set()
 
+    def has_source(self, fn) -> bool:
+        mod = sys.modules.get(fn.__module__)
+        f = getattr(mod, "__file__", None)
+        if not f or not f.endswith(".py"):
+            return False
+        try:
+            tree = ast.parse(Path(f).read_text())
+        except (OSError, SyntaxError):
+            return False
+        return any(isinstance(n, ast.FunctionDef) and n.name == fn.__name__ for n in tree.body)
+
     def qual(self, fn) -> str:
         return f"{fn.__module__}:{fn.__name__}"
 
@@ -170,10 +181,10 @@ class Encoder:
             if obj is None or not callable(obj):
                 self.features.add("call_unresolved")
                 return ["call", ["unresolved"], args]
-            if isinstance(obj, types.FunctionType) and obj.__module__ in self.gen_modules:
-                self.features.add("call_user")
-                return ["call", ["user", self.add_fn(obj)], args]
             key = self.known_by_id.get(id(obj))
+            if key is None and isinstance(obj, types.FunctionType) and self.has_source(obj):
+                self.features.add("call_user" if obj.__module__ in self.gen_modules else "call_library")
+                return ["call", ["user", self.add_fn(obj)], args]
             self.features.add("call_known" if key else "call_foreign")
             return ["call", ["known", key or f"?{getattr(obj, '__name__', 'callable')}"], args]
         self.features.add("unsupported_expr")
@@ -584,7 +595,8 @@ class Gen:
     def header(self) -> str:
         return (
             "import math\nimport numpy as np\n"
-            f"import {self.helper_mod} as hp\nfrom {self.helper_mod} import hmul, hclip, HD\n\n"
+            f"import {self.helper_mod} as hp\nfrom {self.helper_mod} import hmul, hclip, HD\n"
+            "from mxlpy import fns\nfrom mxlpy.fns import mass_action_1s\n\n"
             "K1 = 2.0\nK2 = 0.5\nK3 = -4.0\nNI = 3\n\n"
         )
 
@@ -647,8 +659,11 @@ class Gen:
         r = self.rng
         cands = [(f"hp.{n}" if r.random() < 0.5 or n not in ("hmul", "hclip") else n, k) for n, k in HELPERS]
         cands += self.prev_fns[-4:]
+        if r.random() < 0.15:
+            cands = [("fns.michaelis_menten_1s", 3), ("fns.mass_action_1s", 2), ("mass_action_1s", 2), ("fns.minus", 2),
+                     ("fns.mass_action_2s", 3), ("fns.one_div", 1), ("fns.neg_div", 2)]
         name, k = r.choice(cands)
-        if vs and (r.random() < 0.5 or not name.startswith("h")):
+        if vs and (r.random() < 0.5 or not name.startswith("h") or "fns" in name or name == "mass_action_1s"):
             # arguments that are bare names (often the callee's own parameter names, permuted) or powers of two: a
             # generated callee may divide by its parameter (see `denom`)
             args = [r.choice(vs) if r.random() < 0.8 else r.choice(["1", "2", "4", "0.5"]) for _ in range(k)]
@@ -911,6 +926,15 @@ def t_shadow(x, K2):
 
 def t_call(a, b):
     return hp.hmix(b, a) + hclip(a, 1)
+
+
+def t_fns(s, vmax, km):
+    return fns.michaelis_menten_1s(s, vmax, km) + mass_action_1s(s, km)
+
+
+def t_fns_perm(s1, k, vmax):
+    r = fns.michaelis_menten_1s(k, s1, vmax)
+    return fns.minus(r, fns.mass_action_1s_1p(vmax, k, s1, 2))
 '''
 
 
@@ -1059,11 +1083,17 @@ def evaluate_module(job):
 
     workdir = Path(job["workdir"])
     workdir.mkdir(parents=True, exist_ok=True)
-    for name, src in job["sources"].items():
-        _write_atomic(workdir / f"{name}.py", src)
-    helper = import_fresh(workdir, job["helper"])
-    mod = import_fresh(workdir, job["mod"])
-    gen_modules = {job["helper"]: helper, job["mod"]: mod}
+    if job.get("external"):
+        # a module of the library itself (mxlpy.fns): imported as it is
+        mod = importlib.import_module(job["mod"])
+        gen_modules = {job["mod"]: mod}
+        job = dict(job, sources={job["mod"]: Path(mod.__file__).read_text()})
+    else:
+        for name, src in job["sources"].items():
+            _write_atomic(workdir / f"{name}.py", src)
+        helper = import_fresh(workdir, job["helper"])
+        mod = import_fresh(workdir, job["mod"])
+        gen_modules = {job["helper"]: helper, job["mod"]: mod}
     rng = random.Random(job["seed"])
     out = []
     for fname in job["fns"]:
@@ -1113,7 +1143,7 @@ def evaluate_module(job):
             obs.append(rec)
         needed = {k.split(":", 1)[1] for k in enc.prog if k.split(":", 1)[0] == job["mod"]}
         out.append({"fn": fname, "q": q, "prog": list(enc.prog.values()), "params": params, "features": sorted(enc.features),
-                    "min_src": minimal_source(job["sources"][job["mod"]], needed),
+                    "min_src": fsrc if job.get("external") else minimal_source(job["sources"][job["mod"]], needed),
                     "points": [[rs(v) for v in p] for p in points], "py": pyv, "obs": obs, "src": fsrc})
     return out
 
